@@ -244,6 +244,58 @@ func main() {
 	}
 	addBool("sweep_unregisters_by_coefficient", sweepDeletes, "the recycle sweep deletes from tablesByCoefficient (by the reset coefficient)")
 
+	// ---- structural facts: request guard (C05)
+	handlerGo := parse("internal/server/handler.go")
+	serve := funcDecl(handlerGo, "Handler", "ServeRESP")
+	guardLast := false
+	var bypass []string
+	if serve != nil && len(serve.Body.List) > 0 {
+		stmts := serve.Body.List
+		if ifs, ok := stmts[len(stmts)-1].(*ast.IfStmt); ok {
+			guardLast = strings.HasPrefix(src(ifs.Cond), "h.precond(") && strings.Contains(src(ifs.Body), "h.handler(")
+		}
+		for _, st := range stmts[:len(stmts)-1] {
+			if ifs, ok := st.(*ast.IfStmt); ok && strings.Contains(src(ifs.Body), "h.handler(") {
+				bypass = append(bypass, strings.Join(strings.Fields(src(ifs.Cond)), " "))
+			}
+		}
+	}
+	sort.Strings(bypass)
+	addBool("serve_resp_precond_guards_handler", guardLast, "Handler.ServeRESP ends with `if h.precond(conn, cmd) { h.handler(conn, cmd) }`")
+	addBool("serve_resp_bypass_only_update_routing",
+		strings.Join(bypass, " | ") == "command == protocol.Internal.UpdateRouting | h.precond == nil | len(cmd.Args) == 0",
+		"the handler runs unguarded only for: "+strings.Join(bypass, " | "))
+	olricGo := parse("olric.go")
+	addBool("is_operable_checks_member_quorum", index(callsTo(funcDecl(olricGo, "Olric", "isOperable")), "CheckMemberCountQuorum") >= 0,
+		"olric.isOperable (the precondition of every handler) calls rt.CheckMemberCountQuorum")
+	dmapGo := parse("internal/dmap/dmap.go")
+	nd := funcDecl(dmapGo, "Service", "NewDMap")
+	ndFirst := false
+	if nd != nil && len(nd.Body.List) > 0 {
+		ndFirst = strings.Contains(src(nd.Body.List[0]), "CheckMemberCountQuorum") && strings.Contains(src(nd.Body.List[0]), "return nil, err")
+	}
+	addBool("newdmap_checks_member_quorum_first", ndFirst, "Service.NewDMap starts by returning the error of rt.CheckMemberCountQuorum")
+	putGo := parse("internal/dmap/put.go")
+	sp := funcDecl(putGo, "DMap", "syncPutOnCluster")
+	abort := false
+	if sp != nil {
+		ast.Inspect(sp.Body, func(n ast.Node) bool {
+			if fs, ok := n.(*ast.RangeStmt); ok {
+				ast.Inspect(fs.Body, func(m ast.Node) bool {
+					if _, isret := m.(*ast.ReturnStmt); isret {
+						abort = true
+					}
+					return true
+				})
+			}
+			return true
+		})
+	}
+	addBool("sync_put_aborts_on_backup_error", abort, "the backup loop of syncPutOnCluster contains a return (a failing backup aborts the Put)")
+	spCalls := callsTo(sp)
+	addBool("sync_put_backups_before_local", index(spCalls, "Process") >= 0 && index(spCalls, "Process") < index(spCalls, "putEntryOnFragment"),
+		"syncPutOnCluster writes the backups before the local copy")
+
 	// ---- write
 	sort.SliceStable(facts, func(i, j int) bool { return false })
 	var sb strings.Builder
